@@ -6,6 +6,11 @@ spec := ["n"] | ["t", bool] | ["i", int-as-str] | ["f", float-hex] | ["s", str] 
       | ["list", [spec]] | ["tuple", [spec]] | ["dict", [[spec, spec]]]
       | ["set", [spec]] | ["fset", [spec]] | ["P", [spec, spec]] | ["Q", [spec]] | ["S", [spec, spec]]
       | ["dup", spec]          (a list holding the same object twice: exercises the pickle memo)
+      | ["sub", base, depth, spec-of-kind-base]
+                               (instance of a user-defined class `depth` levels below the builtin container
+                                base in set|fset|dict|list|tuple; the registry dispatches on the MRO.  The
+                                classes are created per namespace `ns` (one per spec), so that in every process
+                                the instance is hashed before any instance of its parent classes was seen)
 """
 from __future__ import annotations
 
@@ -35,9 +40,30 @@ class S:
 CLASSES = {"P": P, "Q": Q, "S": S}
 
 
-def build(spec, order: random.Random | None):
+BASES = {"set": set, "fset": frozenset, "dict": dict, "list": list, "tuple": tuple}
+_classes: dict = {}
+
+
+def get_class(base: str, depth: int, ns: str):
+    """class `depth` levels below BASES[base] in family `ns`; importable by name (pickle GLOBAL)."""
+    mod = sys.modules[__name__]
+    parent = BASES[base]
+    for d in range(1, depth + 1):
+        key = (base, d, ns)
+        if key not in _classes:
+            name = f"Sub_{base}_{ns}_{d}"
+            c = type(name, (parent,), {"__module__": __name__})
+            setattr(mod, name, c)
+            _classes[key] = c
+        parent = _classes[key]
+    return parent
+
+
+def build(spec, order: random.Random | None, ns: str = "x"):
     """order=None: insert set elements as listed; else shuffle them with `order` first."""
     t = spec[0]
+    if t == "sub":
+        return get_class(spec[1], spec[2], ns)(build(spec[3], order, ns))
     if t == "n":
         return None
     if t == "t":
@@ -51,14 +77,14 @@ def build(spec, order: random.Random | None):
     if t == "b":
         return bytes.fromhex(spec[1])
     if t in ("list", "tuple"):
-        l = [build(x, order) for x in spec[1]]
+        l = [build(x, order, ns) for x in spec[1]]
         return l if t == "list" else tuple(l)
     if t == "dict":
-        return {build(k, order): build(v, order) for k, v in spec[1]}
+        return {build(k, order, ns): build(v, order, ns) for k, v in spec[1]}
     if t in ("set", "fset"):
         elems = []
         for x in spec[1]:
-            e = build(x, order)
+            e = build(x, order, ns)
             # equal elements (1, True, 1.0; 0.0, -0.0) collapse in a set and the first inserted one
             # survives: keep the first *listed* one so that every insertion order builds the same value
             if not any(e == u for u in elems):
@@ -70,15 +96,17 @@ def build(spec, order: random.Random | None):
             s.add(e)
         return s if t == "set" else frozenset(s)
     if t in CLASSES:
-        return CLASSES[t](*[build(x, order) for x in spec[1]])
+        return CLASSES[t](*[build(x, order, ns) for x in spec[1]])
     if t == "dup":
-        x = build(spec[1], order)
+        x = build(spec[1], order, ns)
         return [x, x]
     raise ValueError(spec)
 
 
 def hash_all(specs, order_seeds):
-    """-> {order_seed: [hash | "raise:<ExceptionName>"]} using the real redun code."""
+    """-> {order_seed: [outcome per spec]} using the real redun code.  outcome = H | "raise:<Exc>", followed by
+    "|recorded:R" if backend.record_value gives R != H, and by "|after-parents:O2" if the same value has another
+    outcome once instances of the parent classes of its user-defined classes were hashed in this process."""
     import logging
 
     from redun.backends.db import RedunBackendDb
@@ -87,24 +115,45 @@ def hash_all(specs, order_seeds):
     reg = get_type_registry()
     backend = RedunBackendDb(db_uri="sqlite:///:memory:")
     backend.load()
-    out = {}
-    for os_ in order_seeds:
-        res = []
-        for i, sp in enumerate(specs):
+    out = {str(os_): [] for os_ in order_seeds}
+
+    def both(v):
+        try:
+            h = reg.get_hash(v)
+        except Exception as e:  # noqa: the exception type is part of the observation
+            h = "raise:" + type(e).__name__
+        # the hash the scheduler records for a task argument / result (CallNode.value_hash,
+        # Argument.value_hash): RedunBackendDb.record_value -> get_hash(data=serialize())
+        try:
+            r = backend.record_value(v)
+        except Exception as e:  # noqa
+            r = "raise:" + type(e).__name__
+        return h if r == h else f"{h}|recorded:{r}"
+
+    for i, sp in enumerate(specs):
+        ns = str(i)
+        first = None
+        for os_ in order_seeds:
             rng = None if os_ is None else random.Random(f"{os_}:{i}")
-            v = build(sp, rng)
-            try:
-                h = reg.get_hash(v)
-            except Exception as e:  # noqa: the exception type is part of the observation
-                h = "raise:" + type(e).__name__
-            # the hash the scheduler records for a task argument / result (CallNode.value_hash,
-            # Argument.value_hash): RedunBackendDb.record_value -> get_hash(data=serialize())
-            try:
-                r = backend.record_value(v)
-            except Exception as e:  # noqa
-                r = "raise:" + type(e).__name__
-            res.append(h if r == h else f"{h}|recorded:{r}")
-        out[str(os_)] = res
+            v = build(sp, rng, ns)
+            o = both(v)
+            if first is None:
+                first = (os_, o, v)
+            out[str(os_)].append(o)
+        # history independence of the dispatch: hash an instance of every parent class of the
+        # user-defined classes of this spec (nearest to the builtin first), then the same object again
+        fam = sorted(k for k in _classes if k[2] == ns)
+        if first is not None and any(d >= 2 for _, d, _ in fam):
+            for base, d, _ in fam:
+                if any(b == base and d2 > d for b, d2, _ in fam):
+                    try:
+                        reg.get_hash(_classes[(base, d, ns)]())
+                    except Exception:  # noqa
+                        pass
+            os_, o, v = first
+            again = both(v)         # the very same object (a rebuilt one may iterate differently: hash(nan) is id-based)
+            if again != o:
+                out[str(os_)][-1] = f"{o}|after-parents:{again}"
     return out
 
 
